@@ -40,7 +40,7 @@ impl Monitor for C06 {
         "case = one generated multi-queue history (gc/idle/delete/mixed/huge profiles, any persist policy, restarts); evaluation = one check after a truncate / delete_queue / open: (1) the WAL files present are a contiguous run of numbers ending at the file most recently written, (2) none is older than min(file that was current when the oldest retained record's append began, file that was current when this call began), (3) the file of every retained record is present, (4) disk_used_bytes == sum of file sizes; 'current file' is read off the syscall trace; distinct_nontrivial = distinct (present file set, oldest pinned file, number of retained records) among checks with >= 2 files present or an unlink in the call".into()
     }
     fn assumptions(&self) -> Vec<String> {
-        vec!["the file current at a point in time = target of the most recent traced create/write on a WAL file; this is exact under flush-per-call policies (3/4 of the histories); under lazy policies the trace lags behind the BufWriter, so those histories only check contiguity (1) and disk accounting (4)".into()]
+        vec!["the file current at a point in time = target of the most recent traced create/write on a WAL file; under lazy policies the harness issues persist(Flush) right after every call so that the trace is exact at call boundaries (this does not influence the library's GC decisions)".into()]
     }
     fn run_case(&self, ctx: &Ctx, case: u64, acc: &mut Acc) {
         let parts = ctx.case_seed(case);
@@ -60,7 +60,7 @@ impl Monitor for C06 {
         };
         d.gen.cfg.restart_pm = 40;
         d.gen.cfg.bad_pm = 30;
-        let precise = policy.always();
+        let precise = true;
         acc.count(&format!("histories_policy_{}", policy.name()));
         // file most recently created or written, as seen in the trace
         let mut cur: u64 = list_wal_files(&dir).last().map(|f| f.0).unwrap_or(0);
@@ -74,7 +74,15 @@ impl Monitor for C06 {
                 acc.inconclusive(format!("I/O error from a live call: {:?}", st.outcome));
                 return;
             }
-            for e in &st.events {
+            // under lazy policies drain the write buffer right after the call, so that the
+            // trace (and therefore "current file") is exact at every call boundary; this
+            // changes nothing about the library's GC decisions
+            let mut events = st.events.clone();
+            if !policy.always() {
+                let t = d.apply(Op::Persist { fsync: false });
+                events.extend(t.events);
+            }
+            for e in &events {
                 match e {
                     Ev::Write { name, data, .. } if !data.is_empty() => {
                         if let Some(n) = wal_number(name) {
